@@ -712,6 +712,7 @@ func stageClassificationRule(c *Ctx, r *Report, p *Prov, rule string) {
 	}
 	r.Analysed["search_classifier"] = classifier.Name()
 	searchClassifierAgreesRule(c, r, classifier, rule)
+	boolRoleRule(c, r, p, c.placeholders(p).scalarFn, c.lookupFunctions(p), rule)
 	n := 0
 	for f := range p.Zone {
 		for _, call := range callsIn(f, func(k string, cc *ssa.Call) bool { return cc.Call.StaticCallee() == sw }) {
